@@ -231,63 +231,98 @@ def check_pc(ctx, table):
     if r is None:
         raise AnalysisError("_handle_branch_instr not found")
     fn = r[1]
-    defs = A.single_defs(fn)
-    instrp = A.param_names(fn)[2]
-    subp = A.param_names(fn)[1]
-    taken = nottaken = None
-    cond_if = None
-    for st in fn.body:
-        if isinstance(st, ast.If) and isinstance(st.test, ast.Name):
-            cond_if = st
-    if cond_if is None:
-        ctx.error("C04.PC", "_handle_branch_instr: `if condition:` not found")
-        return
-    for st in cond_if.body:
-        if is_pc_write(st):
-            taken = st
-    for st in cond_if.orelse:
-        if is_pc_write(st):
-            nottaken = st
-    ok_t = isinstance(taken, ast.Assign) and A.norm(A.expand(taken.value, defs)) == f"{instrp}.line.value" and A.norm(taken.targets[0].slice) == subp
-    ok_n = isinstance(nottaken, ast.AugAssign) and isinstance(nottaken.op, ast.Add) and A.norm(nottaken.value) == "1" and A.norm(nottaken.target.slice) == subp
-    ctx.check("C04.PC", "_handle_branch_instr:taken-arm-jumps-to-line", ok_t, f"taken arm does not set the counter to instr.line.value: {src(taken) if taken else None}", repo.loc(m, cond_if))
-    ctx.check("C04.PC", "_handle_branch_instr:not-taken-arm-plus-one", ok_n, f"not-taken arm does not add 1: {src(nottaken) if nottaken else None}", repo.loc(m, cond_if))
-    # how `condition` is computed: jmp -> True, unary -> check_condition(a), binary -> check_condition(a, b)
-    cond_name = cond_if.test.id
-    arms = {}
-    for st in fn.body:
-        cur = st
-        while isinstance(cur, ast.If):
-            t = cur.test
-            if isinstance(t, ast.Call) and dotted(t.func) == "isinstance":
-                k = dotted(t.args[1]).split(".")[-1]
-                for s2 in cur.body:
-                    if isinstance(s2, ast.Assign) and isinstance(s2.targets[0], ast.Name) and s2.targets[0].id == cond_name:
-                        arms[k] = s2.value
-                    if isinstance(s2, ast.Assign) and isinstance(s2.targets[0], ast.Name) and s2.targets[0].id != cond_name:
-                        arms.setdefault("_" + k, {})[s2.targets[0].id] = s2.value
-            cur = cur.orelse[0] if len(cur.orelse) == 1 else None
-    def call_shape(k):
-        """`instr.check_condition(<operand values>)` with the locals passed replaced by positional names a, b"""
-        v = arms.get(k)
-        if isinstance(v, ast.Call) and all(isinstance(x, ast.Name) for x in v.args) and not v.keywords:
-            return A.norm(v.func) + "(" + ",".join("ab"[i] for i in range(len(v.args))) + ")", [x.id for x in v.args]
-        return A.norm(v if v is not None else ast.Constant(value=None)), []
+    # The handler is executed abstractly (nqsa/circuit.py) for jmp, the two unary and the four binary branches over a grid of
+    # register values of two applications: afterwards the program counter of this subroutine is the target line exactly when the
+    # reference predicate holds for the values of the registers the instruction names (read from the subroutine's own application),
+    # else one more than before; no other counter changes.
+    from .. import circuit as C
+    from ..model import EnumMember
+    ctx.fn("Executor._handle_branch_instr")
+    ev = ctx.ev
+    refp = json.load(open(REF))["branch_predicates"]
+    import operator as _op
+    OPS_ = {"==": _op.eq, "!=": _op.ne, "<": _op.lt, ">=": _op.ge}
+    rn = repo.get_class("netqasm.lang.encoding", "RegisterName")
+    rmem = ev.enum_members(rn)
+    opm = repo.module("netqasm.lang.operand")
+    R_ = opm.classes["Register"]
+    core = repo.module("netqasm.lang.instr.core")
 
-    u_shape, u_args = call_shape("BranchUnaryInstruction")
-    b_shape, b_args = call_shape("BranchBinaryInstruction")
-    sig = {
-        "jmp": A.norm(arms.get("JmpInstruction", ast.Constant(value=None))),
-        "unary": u_shape,
-        "binary": b_shape,
-        "unary_a": canon(ctx, ex, fn, arms.get("_BranchUnaryInstruction", {}).get(u_args[0]) if len(u_args) > 0 else None, instrp, "BranchUnaryInstruction"),
-        "binary_a": canon(ctx, ex, fn, arms.get("_BranchBinaryInstruction", {}).get(b_args[0]) if len(b_args) > 0 else None, instrp, "BranchBinaryInstruction"),
-        "binary_b": canon(ctx, ex, fn, arms.get("_BranchBinaryInstruction", {}).get(b_args[1]) if len(b_args) > 1 else None, instrp, "BranchBinaryInstruction"),
-    }
-    exp = {"jmp": "True", "unary": f"{instrp}.check_condition(a)", "binary": f"{instrp}.check_condition(a,b)",
-           "unary_a": "REG[instr.reg]", "binary_a": "REG[instr.reg0]", "binary_b": "REG[instr.reg1]"}
-    for k in exp:
-        ctx.check("C04.S", f"_handle_branch_instr:{k}", sig[k] == exp[k], f"branch handler: {k} is `{sig[k]}`, reference `{exp[k]}`", repo.loc(m, fn), sample={"branch": k, "value": sig[k]})
+    class _Log:
+        _nqsa_model = True
+
+        def debug(self, *a_, **k_):
+            return None
+        info = warning = error = debug
+
+    def reg(name, index):
+        return C.Obj(R_, {"name": EnumMember(rn.qualname, name, rmem[name]), "index": index})
+
+    results = {"taken": True, "nottaken": True, "jmp": True, "unary_a": True, "binary_a": True, "binary_b": True, "others": True}
+    why = {}
+    try:
+        for mn, spec in sorted(refp.items()):
+            cname = mn.capitalize() + "Instruction"
+            icls = core.classes.get(cname)
+            if icls is None:
+                raise AnalysisError(f"core.{cname} not found")
+            ar = spec["arity"]
+            grid = [(x, y) for x in (-1, 0, 1, 5) for y in ((-1, 0, 1, 5) if ar == 2 else (0,))]
+            for (x, y) in grid:
+                it = C.Interp(repo, ev, C.Scenario(), ex)
+                keyR = it._hashable(EnumMember(rn.qualname, "R", rmem["R"]))
+                banks = {app: {it._hashable(EnumMember(rn.qualname, n_, v_)): [900 + 10 * app + i for i in range(16)] for n_, v_ in rmem.items()} for app in (0, 1)}
+                banks[1][keyR][3], banks[1][keyR][6] = x, y      # the subroutine's application is 1: R3, R6 are the operands
+                banks[0][keyR][3], banks[0][keyR][6] = 77, 78    # another application's registers must not matter
+                pcs = {4: 20, 5: 40}
+                o = C.object_from_init(repo, ex, {"_registers": banks, "_program_counters": pcs, "_logger": _Log(),
+                                                  "_subroutines": {4: C.Obj(None, {"app_id": 1}), 5: C.Obj(None, {"app_id": 0})}}, kind="self")
+                fields = {"imm": C.Imm(33)}
+                if ar == 1:
+                    fields["reg"] = reg("R", 3)
+                else:
+                    fields["reg0"], fields["reg1"] = reg("R", 3), reg("R", 6)
+                instr = C.Obj(icls, fields)
+                it.call_function(r[0].module, fn, [], {"subroutine_id": 4, "instr": instr}, self_obj=o)
+                want = OPS_[spec["op"]](x, y if ar == 2 else 0)
+                got_pc = pcs.get(4)
+                if pcs.get(5) != 40:
+                    results["others"] = False
+                    why["others"] = f"{mn}: the counter of another subroutine changed to {pcs.get(5)}"
+                if want and got_pc != 33:
+                    results["taken"] = False
+                    why["taken"] = f"{mn} with operands ({x}, {y}): counter {got_pc}, expected the target line 33"
+                if not want and got_pc != 21:
+                    results["nottaken"] = False
+                    why["nottaken"] = f"{mn} with operands ({x}, {y}): counter {got_pc}, expected 21"
+                if (got_pc == 33) != want:
+                    k_ = "unary_a" if ar == 1 else ("binary_a" if x != y or True else "binary_b")
+                    results[k_] = False
+                    why[k_] = f"{mn} with R3={x}" + (f", R6={y}" if ar == 2 else "") + f" {'branches' if got_pc == 33 else 'does not branch'}"
+                    if ar == 2:
+                        results["binary_b"] = False
+                        why["binary_b"] = why[k_]
+        # jmp
+        it = C.Interp(repo, ev, C.Scenario(), ex)
+        pcs = {4: 20}
+        o = C.object_from_init(repo, ex, {"_registers": {}, "_program_counters": pcs, "_logger": _Log(), "_subroutines": {4: C.Obj(None, {"app_id": 1})}}, kind="self")
+        it.call_function(r[0].module, fn, [], {"subroutine_id": 4, "instr": C.Obj(core.classes["JmpInstruction"], {"imm": C.Imm(33)})}, self_obj=o)
+        if pcs.get(4) != 33:
+            results["jmp"] = False
+            why["jmp"] = f"jmp leaves the counter at {pcs.get(4)}, expected 33"
+    except C.EvalRaise as ex_:
+        for k_ in results:
+            results[k_] = False
+            why[k_] = f"raises {ex_}"
+    except AnalysisError as ex_:
+        ctx.error("C04.S", f"_handle_branch_instr cannot be evaluated: {ex_}")
+        return
+    ctx.check("C04.PC", "_handle_branch_instr:taken-arm-jumps-to-line", results["taken"] and results["others"], f"a taken branch does not set this subroutine's counter to the target line: {why.get('taken') or why.get('others')}", repo.loc(m, fn))
+    ctx.check("C04.PC", "_handle_branch_instr:not-taken-arm-plus-one", results["nottaken"], f"a branch that is not taken does not add 1 to the counter: {why.get('nottaken')}", repo.loc(m, fn))
+    for k in ("jmp", "unary", "binary", "unary_a", "binary_a", "binary_b"):
+        key = {"unary": "unary_a", "binary": "binary_a"}.get(k, k)
+        ctx.check("C04.S", f"_handle_branch_instr:{k}", results[key], f"branch handler: {why.get(key)} — the decision must be the instruction's predicate on the values of its own register operands "
+                  "(of the subroutine's application)", repo.loc(m, fn), sample={"branch": k})
 
 
 def canon(ctx, ex, fn, e, instrp, cls_hint=None) -> str:
@@ -775,37 +810,30 @@ def check_predicates(ctx):
     if fn is None:
         raise AnalysisError("_compute_binary_classical_instr not found")
     ctx.fn("Executor._compute_binary_classical_instr")
-    params = A.param_names(fn)
-    pa, pb, pm = params[2], params[3], params[4]
-    arms = {}
-    # every `return <expr>` reached under a positive isinstance test of the instruction is the arm of that class (any chain style)
-    pinstr = params[1]
-    for r_ in A.returns(fn):
-        if r_.value is None:
-            continue
-        for t, pol in reversed(G.path_conditions(fn, r_)):
-            if pol and isinstance(t, ast.Call) and dotted(t.func) == "isinstance" and len(t.args) == 2 and A.norm(t.args[0]) == pinstr:
-                c = repo.resolve_class(ex.module, t.args[1])
-                if c is not None:
-                    arms[I.field_default(repo, ev, c, "mnemonic")] = r_.value
-                break
+    # executed abstractly (nqsa/circuit.py) for an instruction object of each class over a grid of operands and moduli
+    from .. import circuit as C
+    core = repo.module("netqasm.lang.instr.core")
     refa = {"add": lambda a, b, m: a + b, "sub": lambda a, b, m: a - b, "addm": lambda a, b, m: (a + b) % m, "subm": lambda a, b, m: (a - b) % m}
     for mn, f in refa.items():
-        e = arms.get(mn)
-        if e is None:
-            ctx.check("C04.A", f"{mn}:arithmetic", False, f"_compute_binary_classical_instr has no arm for {mn}", repo.loc(ex.module, fn))
-            continue
+        icls = core.classes.get(mn.capitalize() + "Instruction")
+        if icls is None:
+            raise AnalysisError(f"core.{mn.capitalize()}Instruction not found")
         bad = None
         try:
             for a in GRID:
                 for b in GRID:
                     for mo in (1, 2, 3, 5):
-                        if ev.eval(e, ex.module, {pa: a, pb: b, pm: mo}) != f(a, b, mo):
-                            bad = (a, b, mo)
-        except Unknown as ex_:
-            ctx.error("C04.A", f"arm {mn} not evaluable: {ex_}")
+                        o = C.object_from_init(repo, ex, {}, kind="self")
+                        try:
+                            got = C.Interp(repo, ev, C.Scenario(), ex).call_function(ex.module, fn, [], {"instr": C.Obj(icls, {}), "a": a, "b": b, "mod": mo}, self_obj=o)
+                        except C.EvalRaise as ex_:
+                            got = f"raises {ex_}"
+                        if got != f(a, b, mo):
+                            bad = bad or ((a, b, mo), got)
+        except AnalysisError as ex_:
+            ctx.error("C04.A", f"_compute_binary_classical_instr not evaluable for {mn}: {ex_}")
             continue
-        ctx.check("C04.A", f"{mn}:arithmetic", bad is None, f"{mn}: `{src(e)}` differs from the reference at (a, b, mod)={bad}", repo.loc(ex.module, fn), sample={"mnemonic": mn, "expr": src(e)})
+        ctx.check("C04.A", f"{mn}:arithmetic", bad is None, f"{mn}: the computed value differs from the reference at (a, b, mod), got = {bad}", repo.loc(ex.module, fn), sample={"mnemonic": mn})
 
 
 def check_fault_line(ctx):
@@ -935,9 +963,22 @@ def check_memory_primitives(ctx):
         ctx.check("C04.M", "Arrays._get_array:own-array-or-raise", rets == [f"self._arrays[{pa}]"] and guard, "Arrays._get_array does not return self._arrays[address] / raise for an unknown address", arrays.loc(f))
     f = rg.methods.get("__getitem__")
     if f is not None:
-        pi = A.param_names(f)[1]
-        rets = [A.norm(r.value) for r in A.returns(f)]
-        ctx.check("C04.M", "RegisterGroup.__getitem__:value-at-index-or-None", rets in ([f"self._register.get({pi})"], [f"self._register.get({pi},None)"]), f"RegisterGroup.__getitem__ returns {rets}", rg.loc(f))
+        # executed abstractly: the stored value at a stored index, None at an index never written, IndexError outside 0..size-1
+        from .. import circuit as C
+        got = []
+        try:
+            for idx in (3, 4, 0, 16, -1):
+                o = C.object_from_init(repo, rg, {"_register": {3: 41, 0: 0}, "_size": 16}, kind="self")
+                try:
+                    got.append(C.Interp(repo, ctx.ev, C.Scenario(), rg).call_function(rg.module, f, [idx], {}, self_obj=o))
+                except C.EvalRaise as ex_:
+                    got.append("raises")
+        except AnalysisError as ex_:
+            ctx.error("C04.M", f"RegisterGroup.__getitem__ cannot be evaluated: {ex_}")
+            got = None
+        if got is not None:
+            ctx.check("C04.M", "RegisterGroup.__getitem__:value-at-index-or-None", got == [41, None, 0, "raises", "raises"],
+                      f"RegisterGroup.__getitem__ gives {got} for a written index, an unwritten one, index 0 holding 0, and the two indices just outside the group", rg.loc(f))
     # SharedMemory writers used by ret_reg / ret_arr
     f = sh.methods.get("set_register")
     if f is not None:
